@@ -58,6 +58,8 @@ func callArgPositions(text string) []Pos {
 	return out
 }
 
+const c09SharedText = "print(_G.whoami, whoami)\nwhich(1)\nlocal M = {}\nreturn M\n"
+
 const c09TwiceText = "---@class Twice\n---@field first number\nlocal TA = {}\n---@type Twice\nlocal mid = nil\nprint(mid.first, mid.second)\n---@class Twice\n---@field second string\nlocal TB = {}\nprint(TA, TB)\n"
 
 func genC09(seed int64, tier string) *Scenario {
@@ -167,6 +169,7 @@ func genC09(seed int64, tier string) *Scenario {
 		sc.Knobs["twice"] = true
 	}
 	projectMode := r.Intn(4) == 0
+	twins := false
 	if projectMode {
 		// luahelper.json project mode: the entry file pulls other files in through require, so the
 		// second analysis pass (its own worker pool) and the third pass both run
@@ -176,6 +179,18 @@ func genC09(seed int64, tier string) *Scenario {
 		entries := []string{"use.lua"}
 		if r.Intn(2) == 0 {
 			entries = append(entries, sc.Files[r.Intn(len(sc.Files))].Path)
+		}
+		if r.Intn(2) == 0 {
+			// twin projects: two entry files of equal size that share one module and define the same
+			// names differently; questions asked inside the shared module must always be answered
+			// from the same project
+			sc.Files = append(sc.Files,
+				File{Path: "pa.lua", Data: Bytes("local s = require(\"pshared\")\n_G.whoami = 1\nfunction which(a)\n  return a\nend\nprint(s)\n")},
+				File{Path: "pb.lua", Data: Bytes("local s = require(\"pshared\")\n_G.whoami = \"b\"\nfunction which(a, b)\n  return b\nend\nprint(s)\n")},
+				File{Path: "pshared.lua", Data: Bytes(c09SharedText)})
+			entries = append(entries, "pa.lua", "pb.lua")
+			twins = true
+			sc.Knobs["twins"] = true
 		}
 		cfg := map[string]interface{}{"BaseDir": "./", "ShowWarnFlag": 1, "ProjectFiles": entries}
 		if r.Intn(2) == 0 {
@@ -293,6 +308,17 @@ func genC09(seed int64, tier string) *Scenario {
 	var targets []target
 	for _, p := range identPositions(useText) {
 		targets = append(targets, target{"use.lua", p})
+	}
+	if twins {
+		sc.Ops = append(sc.Ops, Op{Kind: "open", Path: "pshared.lua"})
+		for _, p := range identPositions(c09SharedText) {
+			p := p
+			targets = append(targets, target{"pshared.lua", p})
+			for _, m := range []string{"definition", "hover"} {
+				sc.Ops = append(sc.Ops, Op{Kind: "req", Method: m, Path: "pshared.lua", Pos: &p})
+			}
+		}
+		sc.Ops = append(sc.Ops, Op{Kind: "req", Method: "completion", Path: "pshared.lua", Pos: &Pos{0, 8}}, Op{Kind: "req", Method: "signatureHelp", Path: "pshared.lua", Pos: &Pos{1, 6}})
 	}
 	if twice {
 		sc.Ops = append(sc.Ops, Op{Kind: "open", Path: "d0/twice.lua"})
